@@ -132,7 +132,7 @@ def gen_histories(c):
     for i in range(n_g):
         cap = r.choice([0, 0, -1, -9])
         kind, val = value_source(r)
-        if not full or i % 4:
+        if not full or i % 16:
             up = r.randint(64, 82)
             keep = r.randint(0, 31)
             ops = grow_drain_refill(r, val, up, keep, r.randint(3, 40), r.randint(0, 12))
@@ -160,24 +160,33 @@ def case_text(h):
 
 # --------------------------------------------------------------------------- running
 
-def run_impl_chunked(c, binary, lines, per_chunk=400, timeout=300):
-    """Run the harness; a history on which the implementation does not return is answered 'hang'."""
-    out = []
-    for i in range(0, len(lines), per_chunk):
+def run_impl_chunked(c, binary, lines, per_chunk=400, timeout=300, max_hangs=4, hang_ms=3000):
+    """Run the harness.  A history on which the implementation does not return is answered 'hang' by the
+    harness' watchdog, which then exits; the run resumes after it.  After `max_hangs` hangs the remaining
+    histories are not run ('notrun')."""
+    out, hangs = [], 0
+    i = 0
+    while i < len(lines):
+        if hangs >= max_hangs:
+            out += ["notrun|notrun|notrun"] * (len(lines) - i)
+            break
         chunk = lines[i:i + per_chunk]
         try:
-            rc, got, err = c.run_impl(binary, ["c05pq"], "\n".join(chunk) + "\n", timeout=timeout)
-            if len(got) != len(chunk):
-                raise subprocess.TimeoutExpired("c05pq", 0)
-            out += got
+            rc, got, err = c.run_impl(binary, ["c05pq"], "\n".join(chunk) + "\n", timeout=timeout,
+                                       env={"C05_HANG_MS": str(hang_ms)})
         except subprocess.TimeoutExpired:
-            for ln in chunk:
-                try:
-                    rc, got, err = c.run_impl(binary, ["c05pq"], ln + "\n", timeout=10)
-                    out.append(got[0] if len(got) == 1 else "crash|crash|crash")
-                except subprocess.TimeoutExpired:
-                    out.append("hang|hang|hang")
-    return out
+            rc, got = -1, []
+        if len(got) >= len(chunk):
+            out += got[:len(chunk)]
+            i += len(chunk)
+            continue
+        # the process stopped early: its last line is the hanging (or crashing) history
+        if not (got and got[-1].startswith("hang")):
+            got = got + ["crash|crash|crash"]
+        out += got
+        i += len(got)
+        hangs += 1
+    return out[:len(lines)]
 
 
 def parse_line(line):
@@ -208,35 +217,43 @@ def spec_items(ops, entries):
 def decide(c, binary, hists, variant="int"):
     """The property decided on the implementation for each history (cmp, cap, ops):
     returns a list of None | (kind, op_index, detail) with kind in
-    'answer' | 'len' | 'hang' | 'heap-order' | 'after-drain' (answers only wrong once the state is drained)."""
+    'answer' | 'len' | 'hang' | 'crash' | 'heap-order'."""
     if not hists:
         return []
     lines = ["%s %s %d %s" % (variant, cm, cap, " ".join(ops)) for cm, cap, ops in hists]
-    impl = run_impl_chunked(c, binary, lines, per_chunk=200, timeout=120)
+    impl = run_impl_chunked(c, binary, lines, per_chunk=200, timeout=120, hang_ms=800)
     verdicts = [None] * len(hists)
-    spec_in, inv_in, inv_idx = [], [], []
+    spec_in, spec_idx, inv_in, inv_idx = [], [], [], []
     for hi, ((cm, cap, ops), line) in enumerate(zip(hists, impl)):
+        if line.startswith("notrun"):
+            continue
+        if line.startswith(("hang", "crash")):
+            verdicts[hi] = (line[:line.index("|")], len(ops) - 1,
+                            "the implementation does not return from this history (watchdog: no answer in time)"
+                            if line.startswith("hang") else "the harness process died on this history")
+            continue
         entries = parse_line(line)
         spec_in.append("%s %d %s" % (cm, cap, " ".join(spec_items(ops, entries))))
+        spec_idx.append(hi)
         for oi, (ans, ln, arr) in enumerate(entries):
-            if arr in ("hang", "crash", "panic", "?", "noslot0"):
+            if arr in ("panic", "?", "noslot0"):
                 continue
             inv_in.append("%s %s" % (cm, arr if arr else "-"))
             inv_idx.append((hi, oi))
-    spec_out = c.run_model("heap-spec", "\n".join(spec_in) + "\n")
+    spec_out = c.run_model("heap-spec", "\n".join(spec_in) + "\n") if spec_in else []
     inv_out = c.run_model("heap-inv", "\n".join(inv_in) + "\n") if inv_in else []
-    for hi, ((cm, cap, ops), line) in enumerate(zip(hists, impl)):
-        entries = parse_line(line)
-        so = spec_out[hi] if hi < len(spec_out) else "reject 0"
+    for hi, so in zip(spec_idx, spec_out):
+        cm, cap, ops = hists[hi]
+        entries = parse_line(impl[hi])
         if so.startswith("reject"):
             j = int(so.split()[1])
-            oi = j // 2
+            oi = min(j // 2, len(ops) - 1)
             ans = entries[oi][0] if oi < len(entries) else "?"
-            kind = "hang" if ans == "hang" else ("answer" if j % 2 == 0 else "len")
-            verdicts[hi] = (kind, oi, "after %s the implementation answers %r, Len()=%s; the sorted multiset does not allow it"
-                            % (ops[oi] if oi < len(ops) else "?", ans, entries[oi][1] if oi < len(entries) else "?"))
+            verdicts[hi] = ("answer" if j % 2 == 0 else "len", oi,
+                            "after %s the implementation answers %r, Len()=%s; the sorted multiset does not allow it"
+                            % (ops[oi], ans, entries[oi][1] if oi < len(entries) else "?"))
         elif len(entries) < len(ops):
-            verdicts[hi] = ("answer", len(entries), "history stopped early: %r" % line[-80:])
+            verdicts[hi] = ("answer", len(entries), "history stopped early: %r" % impl[hi][-80:])
     for (hi, oi), res in zip(inv_idx, inv_out):
         if res != "true" and verdicts[hi] is None:
             arr = parse_line(impl[hi])[oi][2]
@@ -263,7 +280,7 @@ def minimise(c, binary, hist, kind, variant="int"):
     v = decide(c, binary, [hist], variant)[0]
     if v is None:
         return hist, None
-    ops = ops[:v[1] + 1] if kind != "after-drain" else ops
+    ops = ops[:v[1] + 1]
     rounds = 0
     chunk = max(1, len(ops) // 2)
     while chunk >= 1 and rounds < 30:
@@ -276,7 +293,7 @@ def minimise(c, binary, hist, kind, variant="int"):
         rounds += 1
         hit = next((i for i, x in enumerate(vs) if x is not None and x[0] == v[0]), None)
         if hit is not None:
-            ops = cands[hit][:vs[hit][1] + 1]
+            ops = cands[hit][:vs[hit][1] + 1]      # (for hang/crash the index is the last operation)
             v = vs[hit]
             chunk = min(chunk, max(1, len(ops) // 2))
         elif chunk == 1:
@@ -336,9 +353,7 @@ def ans_to_coq(a):
     return ("6", "0") if p[0] == "panic" else ("7", "0")
 
 
-def crosscheck(c, hists, model):
-    r = random.Random(c.seed + 11)
-    idx = sorted(r.sample(range(len(hists)), min(150, len(hists))))
+def crosscheck(c, hists, model, idx):
     items = []
     for i in idx:
         _, _, cm, cap, ops = hists[i]
@@ -363,43 +378,63 @@ def crosscheck(c, hists, model):
 
 def run_pq(c, binary):
     hists = gen_histories(c)
-    lines = [case_text(h) for h in hists]
-    impl = run_impl_chunked(c, binary, lines)
-    model = c.run_model("heap", "\n".join(lines) + "\n")
+    r = random.Random(c.seed + 11)
+    cross_idx = set(r.sample(range(len(hists)), min(150, len(hists))))
     # ---- evidence: what the histories exercised (measured on the model's run)
     dist, stats = {}, {"ops": 0, "err_full": 0, "err_empty": 0, "dequeues_ok": 0, "max_len": 0,
                        "histories_past_64_then_below_32": 0, "public_wrapper_histories": 0, "tie_histories": 0}
-    for h, ml in zip(hists, model):
-        dist[h[0]] = dist.get(h[0], 0) + 1
-        entries = parse_line(ml)
-        stats["ops"] += len(entries)
-        lens = [int(e[1]) for e in entries if INT_RE.match(e[1])]
-        stats["max_len"] = max([stats["max_len"]] + lens)
-        stats["err_full"] += sum(1 for e in entries if e[0] == "err:full")
-        stats["err_empty"] += sum(1 for e in entries if e[0] == "err:empty")
-        stats["dequeues_ok"] += sum(1 for o, e in zip(h[4], entries) if o == "d" and e[0].startswith("ok"))
-        if h[1] == "pub":
-            stats["public_wrapper_histories"] += 1
-        if h[2] == "mod3":
-            stats["tie_histories"] += 1
-        if h[3] <= 0 and lens and max(lens) >= 64 and min(lens[lens.index(max(lens)):]) < 32:
-            stats["histories_past_64_then_below_32"] += 1
-        c.note_case(case_text(h), len(h[4]) >= 3 and any(e[0].startswith("ok:") for e in entries))
+    impl, model = {}, {}           # only the lines needed later (diverging histories, cross-check sample)
+    bad, n_notrun, stop = [], 0, False
+    BATCH = 1000                   # bounds the memory held for the array dumps
+    for start in range(0, len(hists), BATCH):
+        hs = hists[start:start + BATCH]
+        lines = [case_text(h) for h in hs]
+        if stop:
+            n_notrun += len(hs)
+            continue
+        impl_b = run_impl_chunked(c, binary, lines)
+        model_b = c.run_model("heap", "\n".join(lines) + "\n")
+        for off, (h, ml) in enumerate(zip(hs, model_b)):
+            i = start + off
+            il = impl_b[off] if off < len(impl_b) else "crash|crash|crash"
+            dist[h[0]] = dist.get(h[0], 0) + 1
+            entries = parse_line(ml)
+            stats["ops"] += len(entries)
+            lens = [int(e[1]) for e in entries if INT_RE.match(e[1])]
+            stats["max_len"] = max([stats["max_len"]] + lens)
+            stats["err_full"] += sum(1 for e in entries if e[0] == "err:full")
+            stats["err_empty"] += sum(1 for e in entries if e[0] == "err:empty")
+            stats["dequeues_ok"] += sum(1 for o, e in zip(h[4], entries) if o == "d" and e[0].startswith("ok"))
+            if h[1] == "pub":
+                stats["public_wrapper_histories"] += 1
+            if h[2] == "mod3":
+                stats["tie_histories"] += 1
+            if h[3] <= 0 and lens and max(lens) >= 64 and min(lens[lens.index(max(lens)):]) < 32:
+                stats["histories_past_64_then_below_32"] += 1
+            c.note_case(lines[off], len(h[4]) >= 3 and any(e[0].startswith("ok:") for e in entries))
+            if i in cross_idx:
+                model[i] = ml
+            if il.startswith("notrun"):
+                n_notrun += 1
+                stop = True
+            elif il != ml:
+                bad.append(i)
+                if len(bad) <= 40:
+                    impl[i], model[i] = il, ml
     c.cov["pq_histories"] = len(hists)
     c.cov["pq_profile_distribution"] = dist
     c.cov["pq_stats"] = stats
     for h in (hists[0], hists[len(hists) // 2]):
         c.sample(case_text(h)[:300])
-    # ---- diff
-    bad = [i for i in range(len(hists)) if i >= len(impl) or i >= len(model) or impl[i] != model[i]]
-    c.cov["traces_validated_against_impl"] += len(hists) - len(bad)
+    c.cov["traces_validated_against_impl"] += len(hists) - len(bad) - n_notrun
+    c.cov["pq_histories_not_run_after_hangs"] = n_notrun
     c.cov["pq_diverging_histories"] = len(bad)
     # ---- search layer (one full search + minimisation per kind of failure; the rest is only counted)
     seen = set()
     for i in bad[:40]:
         prof, variant, cm, cap, ops = hists[i]
-        ie = parse_line(impl[i]) if i < len(impl) else []
-        me = parse_line(model[i]) if i < len(model) else []
+        ie = parse_line(impl[i]) if i in impl else []
+        me = parse_line(model[i]) if i in model else []
         k = next((j for j in range(max(len(ie), len(me))) if j >= len(ie) or j >= len(me) or ie[j] != me[j]), 0)
         opn = OPNAME.get(ops[k][0], "?") if k < len(ops) else "?"
         first = {"op_index": k, "op": ops[k] if k < len(ops) else None,
@@ -412,7 +447,7 @@ def run_pq(c, binary):
         if v is None:
             ext, v2 = decide_with_drain(c, binary, hist, k, variant)
             if v2 is not None:
-                failing, v, kind = ext, v2, ("after-drain" if v2[0] != "heap-order" else "heap-order")
+                failing, v, kind = ext, v2, v2[0]
         if v is not None:
             pre = (variant, OPNAME.get(failing[2][v[1]][0], "?") if v[1] < len(failing[2]) else "?", v[0])
             if pre in seen or len(seen) >= 8:
@@ -443,7 +478,7 @@ def run_pq(c, binary):
                       "theorems_not_transferring": ["heap_inv_preserved", "heap_inv_reachable", "pq_refines_sorted_multiset",
                                                     "pq_never_panics_never_out_of_fuel", "pq_len_le_capacity"]},
                      found_input=False)
-    crosscheck(c, hists, model)
+    crosscheck(c, hists, model, sorted(i for i in cross_idx if i in model))
 
 
 # --------------------------------------------------------------------------- main
